@@ -270,6 +270,17 @@ func simpleSRT(cs []tcue) string {
 	for k, c := range cs {
 		b = append(b, fmt.Sprintf("%d\n%s --> %s\n%s\n\n", k+1, srtTime(c.S), srtTime(c.E), c.T)...)
 	}
+	// the file ends with one to four blank lines, the last of them possibly not terminated (a function of the list)
+	if n := len(cs); n > 0 {
+		switch (int(cs[0].S/1e6) + 3*n) % 4 {
+		case 1:
+			b = append(b, '\n')
+		case 2:
+			b = append(b, "\n\n \n"...)
+		case 3:
+			b = b[:len(b)-1]
+		}
+	}
 	return string(b)
 }
 
